@@ -481,8 +481,16 @@ func suiteSession(h *H) {
 				del = true
 			}
 		}
-		checksum, ignoreTimes, times := flag("c"), flag("I"), flag("t") || archive
-		links := flag("l") || archive
+		has := func(long string) bool {
+			for _, o := range opts {
+				if o == long {
+					return true
+				}
+			}
+			return false
+		}
+		checksum, ignoreTimes, times := flag("c"), flag("I"), (flag("t") || archive) && !has("--no-t") && !has("--no-times")
+		links := (flag("l") || archive) && !has("--no-l") && !has("--no-links")
 		// ---- run every arrangement on a fresh copy of the same state
 		results := map[byte]sTree{}
 		outcomes := map[byte]string{}
